@@ -265,15 +265,12 @@ class C07(core.Prop):
             q['post'] = None
         elif k == 'ungrouped':
             q['grp'] = [x]
-            others = [f for f in ints if f != x]
-            q['sel'] = [x, rng.choice(others)] if others else [x, ['bin', '+', x, ['lit', 1]]]
+            q['sel'] = [x, self._offender(rng, ints, x)]
             q['post'] = None
         elif k == 'ungrouped2':
-            others = [f for f in ints if f != x]
-            if not others:
-                return None
             q['grp'] = [x]
-            q['sel'] = [x, ['alias', ['agg', 'count', x], 'n'], rng.choice(others)]
+            q['sel'] = [x, ['alias', ['agg', 'count', x], 'n'], self._offender(rng, ints, x)]
+            rng.shuffle(q['sel'])
             q['post'] = None
         elif k == 'set_prefix':
             # one operand's schema is a strict prefix of the other's
@@ -291,6 +288,26 @@ class C07(core.Prop):
             return None
         return stmt
 
+    @staticmethod
+    def _offender(rng, ints, x):
+        """A selected feature that is neither the grouping key nor contains an aggregate: a column, an arithmetic,
+        comparison (every operator, '==' included - its Python truth value is special) or logical expression over
+        columns and literals, bare or aliased."""
+        others = [f for f in ints if f != x] or [['bin', '+', x, ['lit', 1]]]
+        a, b = rng.choice(others), rng.choice(ints + [['lit', rng.randint(-1, 3)]])
+        r = rng.random()
+        if r < 0.3:
+            f = a
+        elif r < 0.45:
+            f = ['bin', rng.choice(['+', '-', '*']), a, b]
+        elif r < 0.85:
+            f = ['bin', rng.choice(dslgen.CMP), a, b]
+        else:
+            f = ['bin', rng.choice(['and', 'or']), ['bin', rng.choice(dslgen.CMP), a, b], ['bin', '==', x, ['lit', 1]]]
+        if rng.random() < 0.3:
+            f = ['alias', f, 'off']
+        return f
+
     def corpus(self):
         x, y = ['col', 'A', 'x'], ['col', 'A', 'y']
         q = lambda sel, grp: ['query', A, {'sel': sel, 'pre': None, 'grp': grp, 'post': None, 'ord': [], 'rows': None}]
@@ -300,6 +317,11 @@ class C07(core.Prop):
             # grouping by a comparison that is also selected (bare and aliased) is conforming
             out.append({'statement': q([c, ['alias', ['agg', 'count', y], 'n']], [c]), 'mutant': False})
             out.append({'statement': q([['alias', c, 'flag'], ['alias', ['agg', 'sum', y], 'n']], [c]), 'mutant': False})
+        # a selected comparison outside the grouping is an offender whatever its operator (== has a Python truth value)
+        for op in ('==', '!=', '<'):
+            for off in (['bin', op, y, ['lit', 1]], ['alias', ['bin', op, y, x], 'off'], ['bin', op, y, ['col', 'A', 'id']]):
+                out.append({'statement': q([x, off], [x]), 'mutant': True})
+                out.append({'statement': q([off, x, ['alias', ['agg', 'count', y], 'n']], [x]), 'mutant': True})
         # set operations need equal schemas: a strict prefix on either side is not enough
         two = ['query', A, {'sel': [['col', 'A', 'id'], ['col', 'A', 'x']], 'pre': None, 'grp': [], 'post': None, 'ord': [], 'rows': None}]
         one = ['query', A, {'sel': [['col', 'A', 'id']], 'pre': None, 'grp': [], 'post': None, 'ord': [], 'rows': None}]
